@@ -44,8 +44,8 @@ def solo(twin, policy=None):
 
 
 def locks_of(dev):
-    io = dev._io_manager
-    return {'transport': io._transport_lock.locked(), 'store': io._store_lock.locked(), 'local_id': dev._local_id_lock.locked()}
+    from ..harness import find_locks
+    return {k: v.locked() for k, v in find_locks(dev, dev._io_manager).items()}
 
 
 def run_fault(params, ch):
